@@ -78,7 +78,12 @@ func (ctx *_OpContextType) encodeRaw(xlen int, as abi.As, arg *abi.AsArgument) (
 		case AEBREAK:
 			return ctx.encodeI(0, 0, 0b_0000_0000_0001), nil
 		default:
-			return ctx.encodeI(ctx.regI(arg.Rd), ctx.regI(arg.Rs1), uint32(arg.Imm)), nil
+			imm := uint32(arg.Imm)
+			if ctx.HasShamt {
+				// SLLI/SRLI/SRAI: imm[11:5] 为 funct7 (RV64 的 shamt[5] 占用 funct7 最低位)
+				imm = imm&0b_11_1111 | ctx.Funct7<<5
+			}
+			return ctx.encodeI(ctx.regI(arg.Rd), ctx.regI(arg.Rs1), imm), nil
 		}
 	case _S:
 		return ctx.encodeS(ctx.regI(arg.Rs1), ctx.regI(arg.Rs2), uint32(arg.Imm)), nil
